@@ -431,6 +431,40 @@ func algebraCase(k *engine.Case) {
 			}
 			k.Evals(2)
 			k.Logf("    %s -> %s Len=%d", o.name, fmtSetShort(got), len(got))
+			// the result is a set of its own: changing the membership of one index in it
+			// changes exactly that index of exactly that bitmap (not of an operand), and a
+			// later change of an operand does not reach the result
+			flip := int16(r.Intn(1024))
+			wasIn := o.want[flip]
+			if wasIn {
+				res.UnsetI16(flip)
+			} else {
+				res.SetI16(flip)
+			}
+			gx, gy := observe1024(x), observe1024(y)
+			k.Evals(2)
+			t.add("algebra_independent", 1)
+			if !sameInts(gx, memA) || !sameInts(gy, memB) {
+				k.Logf("    after flipping %d in the result of %s: a=%s b=%s", flip, o.name, fmtSet(gx), fmtSet(gy))
+				k.Fail("algebra-result-aliases-operand", "%s with a=%s b=%s: flipping index %d in the result changed an operand: a=%s b=%s", o.name, fmtSet(memA), fmtSet(memB), flip, fmtSet(gx), fmtSet(gy))
+				return
+			}
+			wantRes := *o.want
+			wantRes[flip] = !wasIn
+			flip2 := int16(r.Intn(1024))
+			for oi, op := range []bitmap1024.Bit1024{x, y} {
+				if []bool{ma[flip2], mb[flip2]}[oi] {
+					op.UnsetI16(flip2)
+				} else {
+					op.SetI16(flip2)
+				}
+			}
+			if got2 := observe1024(res); !sameInts(got2, wantRes.members()) {
+				k.Logf("    after flipping %d in both operands of %s: result=%s, model %s", flip2, o.name, fmtSet(got2), fmtSet(wantRes.members()))
+				k.Fail("algebra-result-aliases-operand", "%s with a=%s b=%s: after flipping %d in the result and then %d in the operands the result reads %s, expected %s", o.name, fmtSet(memA), fmtSet(memB), flip, flip2, fmtSet(got2), fmtSet(wantRes.members()))
+				return
+			}
+			k.Evals(1)
 		}
 		// Equal
 		wantEq := ma == mb
